@@ -3,14 +3,23 @@
 (* C12 - ill-formed pipelines and inputs are rejected before any user code *)
 (* runs, and without altering a run folder opened with cleanup=False.      *)
 (*                                                                         *)
-(* A REQUEST is  r = [desc, inputs, cfg, prev]  with                       *)
-(*   desc    a pipeline description (PipelineStatic / MapDenote),          *)
-(*   inputs  pairs name -> value (arrays are nested "#arr" terms),         *)
-(*   cfg     [storage : STRING, parallel, executor, cleanup, folder :      *)
-(*            BOOLEAN]  (executor = "an Executor object is passed",        *)
-(*            folder = "a run folder is given"),                           *)
+(* A REQUEST is  r = [desc, inputs, cfg, prev, entry, out]  with           *)
+(*   desc    a pipeline description (PipelineStatic / MapDenote) - the     *)
+(*           pipeline AS IT IS when the request arrives, whether it was    *)
+(*           constructed like that or a member function was changed later  *)
+(*           (update_renames / update_defaults on pipeline[name]),         *)
+(*   inputs  pairs name -> value (arrays are nested "#arr" terms); the     *)
+(*           keyword arguments when entry = "call",                        *)
+(*   cfg     [storage : STRING, sdict : Seq([key : Seq(STRING), name :     *)
+(*            STRING]), parallel, executor, cleanup, folder : BOOLEAN]     *)
+(*            (sdict = the per-output storage dictionary in insertion      *)
+(*            order, key <<>> = the default entry "", empty = `storage`    *)
+(*            is the single name; executor = "an Executor object is        *)
+(*            passed", folder = "a run folder is given"),                  *)
 (*   prev    [desc, inputs]: the (valid, completed) run whose results the  *)
-(*            run folder holds when the request arrives.                   *)
+(*            run folder holds when the request arrives,                   *)
+(*   entry   "map" (Pipeline.map) | "call" (pipeline(out, **kw) / run),    *)
+(*   out     the requested output of a call ("" for map).                  *)
 (* Valid(r) is the conjunction of the NAMED clauses below, in the order in *)
 (* which the code can evaluate them (PipeFunc/Pipeline construction, then  *)
 (* pipefunc/map/_prepare.py prepare_run, then _run_info.py RunInfo.create).*)
@@ -21,8 +30,13 @@
 (* sub-action per step with an abstract run folder `disk`; the invariant   *)
 (* RejectIsPure says that a rejected request ran no user code and left a   *)
 (* folder opened with cleanup=False untouched.  Where the unknown-storage  *)
-(* check sits is a switch: "early" (required) or "late" (InitStore, after  *)
-(* DumpRunInfo - the implementation at the pinned commit).                 *)
+(* check sits is a switch: "early" (required: every name resolved first),  *)
+(* "late" (InitStore, after DumpRunInfo - the pinned commit) or "any" (the *)
+(* string resolved first, a dictionary through any(...) that stops at the  *)
+(* first storage that requires serialization).  Where a call looks at its  *)
+(* keywords is the switch KwargCheck: "early" (required) or "late" (a      *)
+(* missing argument when the evaluation reaches it, surplus keywords after *)
+(* everything ran).                                                        *)
 (***************************************************************************)
 EXTENDS MapDenote
 
@@ -70,7 +84,15 @@ ExecutorNeedsParallel(c) == c.executor => c.parallel
 RootArgs(dd) == {p \in AllParams(dd) \ AllOutputs(dd) : \E i \in FIdx(dd) : p \in ParamsOf(dd, i) /\ ~IsBound(dd, i, p)}
 CompleteInputs(dd, inputs)  == \A p \in RootArgs(dd) : PHas(inputs, p) \/ HasDefault(dd, p)
 NoSurplusInputs(dd, inputs) == PKeys(inputs) \subseteq RootArgs(dd)
-KnownStorage(c) == c.storage \in KnownStorages
+(* every storage name that the request mentions is registered: the single name, or every value of the dictionary *)
+StorageNames(c) == IF c.sdict = <<>> THEN <<c.storage>> ELSE [k \in DOMAIN c.sdict |-> c.sdict[k].name]
+KnownStorage(c) == \A k \in DOMAIN StorageNames(c) : StorageNames(c)[k] \in KnownStorages
+
+(* Clauses of the start of a call  pipeline(out, **kw) / Pipeline.run  (PipelineStatic): every argument of every needed *)
+(* function has a source; no keyword names something that no needed function takes.                                   *)
+IsCall(r) == r.entry = "call"
+CallComplete(r)  == Defined(r.desc, r.inputs, r.out)
+CallNoSurplus(r) == StrictSurplus(r.desc, r.inputs, r.out) = {}
 
 (* array shapes, generation by generation as MapDenote!ValidUpTo: the first generation with a fault decides *)
 RankFault(dd, env, i) == HasMapInputs(dd.funcs[i]) /\ ~MappedRankOK(dd, env, i)
@@ -99,12 +121,12 @@ Holds(r, clause) ==
       [] clause = "ConsistentDefaults"      -> ConsistentDefaults(r.desc)
       [] clause = "MapSpecMatchesSignature" -> MapSpecMatchesSignature(r.desc)
       [] clause = "ConsistentAxes"          -> ConsistentAxes(r.desc)
-      [] clause = "ExecutorNeedsParallel"   -> ExecutorNeedsParallel(r.cfg)
-      [] clause = "CompleteInputs"          -> CompleteInputs(r.desc, r.inputs)
-      [] clause = "NoSurplusInputs"         -> NoSurplusInputs(r.desc, r.inputs)
-      [] clause = "KnownStorage"            -> KnownStorage(r.cfg)
-      [] clause = "RankOK"                  -> RankOK(r.desc, r.inputs)
-      [] clause = "ZipDimsOK"               -> ZipOK(r.desc, r.inputs)
+      [] clause = "ExecutorNeedsParallel"   -> IsCall(r) \/ ExecutorNeedsParallel(r.cfg)
+      [] clause = "CompleteInputs"          -> IF IsCall(r) THEN CallComplete(r) ELSE CompleteInputs(r.desc, r.inputs)
+      [] clause = "NoSurplusInputs"         -> IF IsCall(r) THEN CallNoSurplus(r) ELSE NoSurplusInputs(r.desc, r.inputs)
+      [] clause = "KnownStorage"            -> IsCall(r) \/ KnownStorage(r.cfg)
+      [] clause = "RankOK"                  -> IsCall(r) \/ RankOK(r.desc, r.inputs)
+      [] clause = "ZipDimsOK"               -> IsCall(r) \/ ZipOK(r.desc, r.inputs)
 (* the first clause (in ClauseOrder) that fails; later clauses presuppose the earlier ones *)
 RECURSIVE FirstFrom(_, _)
 FirstFrom(r, k) == IF k > Len(ClauseOrder) THEN "none"
@@ -115,19 +137,21 @@ Valid(r) == FirstViolated(r) = "none"
 ValidConj(r) ==
     /\ UniqueOutputs(r.desc) /\ OutputNotOwnParam(r.desc) /\ Acyclic(r.desc) /\ ConsistentDefaults(r.desc)
     /\ MapSpecMatchesSignature(r.desc) /\ ConsistentAxes(r.desc)
-    /\ ExecutorNeedsParallel(r.cfg) /\ CompleteInputs(r.desc, r.inputs) /\ NoSurplusInputs(r.desc, r.inputs)
-    /\ KnownStorage(r.cfg) /\ RankOK(r.desc, r.inputs) /\ ZipOK(r.desc, r.inputs)
+    /\ IF IsCall(r) THEN CallComplete(r) /\ CallNoSurplus(r)
+       ELSE /\ ExecutorNeedsParallel(r.cfg) /\ CompleteInputs(r.desc, r.inputs) /\ NoSurplusInputs(r.desc, r.inputs)
+            /\ KnownStorage(r.cfg) /\ RankOK(r.desc, r.inputs) /\ ZipOK(r.desc, r.inputs)
 ConstructionClauses == {"UniqueOutputs", "OutputNotOwnParam", "Acyclic", "ConsistentDefaults", "MapSpecMatchesSignature",
                         "ConsistentAxes"}
 (* for a request that passes the earlier clauses this coincides with the C01 notion of a valid map request *)
 LawAgreesWithMapDenote(r) ==
-    (ConstructOK(r.desc) /\ CompleteInputs(r.desc, r.inputs) /\ NoSurplusInputs(r.desc, r.inputs)
+    (~IsCall(r) /\ ConstructOK(r.desc) /\ CompleteInputs(r.desc, r.inputs) /\ NoSurplusInputs(r.desc, r.inputs)
      /\ \A i \in FIdx(r.desc) : InternalOK(r.desc.funcs[i]))
     => ((RankOK(r.desc, r.inputs) /\ ZipOK(r.desc, r.inputs)) <=> ValidMapRequest(r.desc, r.inputs))
 
 ---------------------------------------------------------------------------
 (* The Prepare state machine: one request against an existing run folder. *)
-CONSTANT StorageCheck          \* "early": required;  "late": in InitStore, as implemented at the pinned commit
+CONSTANTS StorageCheck,        \* "early": required;  "late": in InitStore (pinned commit);  "any": see the header
+          KwargCheck           \* "early": required;  "late": while / after evaluating, as implemented
 VARIABLES req,     \* the request (constant during a behaviour)
           pc,      \* next step, or "rejected" / "returned"
           disk,    \* abstract run folder: [run_info, inputs, defaults, outputs] each "prev" | "absent" | "new"
@@ -152,19 +176,47 @@ SameRun(r)      == /\ SeqToSet(r.inputs) = SeqToSet(r.prev.inputs)
                    /\ DefaultsOf(r.desc) = DefaultsOf(r.prev.desc)
 Identical(r)    == r.desc = r.prev.desc /\ SeqToSet(r.inputs) = SeqToSet(r.prev.inputs)
 Continues(r)    == r.cfg.cleanup \/ ~r.cfg.folder \/ Identical(r)    \* cannot be refused for being a different run
-MapsSomething(dd) == \E i \in FIdx(dd) : HasMapInputs(dd.funcs[i])
-(* where the implementation looks at the storage name when the check is late: only when a run folder is given (without  *)
-(* one _maybe_run_folder resolves the class first) and only when some output needs a storage array                     *)
-StorageSeenLate(r) == r.cfg.folder => MapsSomething(r.desc)
+(* Where the IMPLEMENTATION looks at storage names.  _requires_serialization resolves the single name, or the values   *)
+(* of the dictionary in insertion order until the first one that requires serialization (any(...)); RunInfo.init_store *)
+(* resolves the name of every output that gets a storage array: the entry keyed by the function's output name(s), else *)
+(* the default entry.  An unknown name that neither place reaches is never noticed.                                    *)
+RequiresSerialization(n) == n \in {"file_array", "shared_memory_dict"}
+SeenByAny(c) == LET ns == StorageNames(c) IN
+    \E k \in DOMAIN ns : ns[k] \notin KnownStorages
+                          /\ \A j \in 1..(k - 1) : ns[j] \in KnownStorages /\ ~RequiresSerialization(ns[j])
+StorageNameFor(c, outs) ==
+    IF c.sdict = <<>> THEN c.storage
+    ELSE IF \E k \in DOMAIN c.sdict : c.sdict[k].key = outs THEN c.sdict[CHOOSE k \in DOMAIN c.sdict : c.sdict[k].key = outs].name
+    ELSE IF \E k \in DOMAIN c.sdict : c.sdict[k].key = <<>> THEN c.sdict[CHOOSE k \in DOMAIN c.sdict : c.sdict[k].key = <<>>].name
+    ELSE "dict"
+SeenAtInitStore(r) == \E i \in FIdx(r.desc) : HasMapInputs(r.desc.funcs[i])
+                                               /\ StorageNameFor(r.cfg, r.desc.funcs[i].outputs) \notin KnownStorages
+StorageOKAtCheck(r) == CASE StorageCheck = "early" -> KnownStorage(r.cfg)
+                         [] StorageCheck = "any"   -> ~SeenByAny(r.cfg)
+                         [] StorageCheck = "late"  -> r.cfg.folder \/ ~SeenByAny(r.cfg)   \* only without a run folder
+StorageOKAtInitStore(r) == StorageCheck = "early" \/ ~SeenAtInitStore(r)
 
-Construct      == Step("Construct", ConstructOK(req.desc), "CheckExecutorParallel", disk)
+(* Construct: the construction-time clauses.  For a pipeline whose member was changed after construction this is the  *)
+(* re-validation that has to happen at the latest when the next call / run / map starts.                               *)
+Construct      == Step("Construct", ConstructOK(req.desc), IF IsCall(req) THEN "CheckKwargs" ELSE "CheckExecutorParallel", disk)
+(* the call side: keywords are checked before anything is evaluated ("early"); the implementation ("late") finds a      *)
+(* missing argument when the depth-first evaluation reaches it and surplus keywords after everything ran              *)
+NeededOf(r)    == Needed(r.desc, r.inputs, r.out)
+MayRunBeforeRejection(r) ==
+    IF CallComplete(r) THEN NeededOf(r)
+    ELSE {i \in NeededOf(r) : \A j \in Closure(r.desc, r.inputs, {i}) : \A q \in ParamsOf(r.desc, j) : Source(r.desc, r.inputs, j, q) # "missing"}
+CheckKwargs    == Step("CheckKwargs", KwargCheck = "late" \/ (CallComplete(req) /\ CallNoSurplus(req)), "RunCall", disk)
+RunCall        == /\ pc = "RunCall" /\ UNCHANGED <<req, disk>>
+                  /\ IF CallComplete(req) /\ CallNoSurplus(req)
+                     THEN pc' = "returned" /\ calls' = calls + Cardinality(NeededOf(req))
+                     ELSE pc' = "rejected" /\ \E n \in 0..Cardinality(MayRunBeforeRejection(req)) : calls' = calls + n
 CheckExecutorParallel == Step("CheckExecutorParallel", ExecutorNeedsParallel(req.cfg), "Subpipeline", disk)
 Subpipeline    == Step("Subpipeline", TRUE, "ValidateInputs", disk)                 \* no output selection here (C11)
 ValidateInputs == Step("ValidateInputs", CompleteInputs(req.desc, req.inputs) /\ NoSurplusInputs(req.desc, req.inputs),
                        "ValidateFixed", disk)
 ValidateFixed  == Step("ValidateFixed", TRUE, "CheckStorage", disk)                 \* no fixed_indices here (C06)
 (* RunInfo.create *)
-CheckStorage   == Step("CheckStorage", (StorageCheck = "early" \/ ~req.cfg.folder) => KnownStorage(req.cfg),
+CheckStorage   == Step("CheckStorage", StorageOKAtCheck(req),
                        IF ~req.cfg.folder THEN "CheckShapes" ELSE IF req.cfg.cleanup THEN "Cleanup" ELSE "CompareToPrevious", disk)
 Cleanup        == Step("Cleanup", TRUE, "CheckShapes", AbsentDisk)
 (* cleanup=False continues the previous run: the new shapes must be computable and MapSpecs, shapes, inputs and        *)
@@ -179,13 +231,13 @@ CheckShapes    == Step("CheckShapes", ShapeFault(req.desc, req.inputs, 1) = "non
 DumpRunInfo    == Step("DumpRunInfo", TRUE, "DumpInputs", [disk EXCEPT !.run_info = "new"])
 DumpInputs     == Step("DumpInputs", TRUE, "DumpDefaults", [disk EXCEPT !.inputs = "new"])
 DumpDefaults   == Step("DumpDefaults", TRUE, "InitStore", [disk EXCEPT !.defaults = "new"])
-InitStore      == Step("InitStore", (StorageCheck = "late" /\ StorageSeenLate(req)) => KnownStorage(req.cfg), "Run",
+InitStore      == Step("InitStore", StorageOKAtInitStore(req), "Run",
                        IF req.cfg.folder THEN [disk EXCEPT !.outputs = IF req.cfg.cleanup THEN "new" ELSE disk.outputs] ELSE disk)
 Run            == /\ pc = "Run" /\ pc' = "returned" /\ calls' = calls + NF(req.desc)
                   /\ disk' = IF req.cfg.folder THEN [disk EXCEPT !.outputs = "new"] ELSE disk
                   /\ UNCHANGED req
 
-PrepareNext == \/ Construct \/ CheckExecutorParallel \/ Subpipeline \/ ValidateInputs \/ ValidateFixed \/ CheckStorage
+PrepareNext == \/ Construct \/ CheckKwargs \/ RunCall \/ CheckExecutorParallel \/ Subpipeline \/ ValidateInputs \/ ValidateFixed \/ CheckStorage
                \/ Cleanup \/ CompareToPrevious \/ CheckShapes \/ DumpRunInfo \/ DumpInputs \/ DumpDefaults \/ InitStore \/ Run
 
 (* invariants *)
